@@ -129,7 +129,7 @@ _PATCHES = {
         ("Verus contract on the real BestIndividual::update over an abstract total order + Kani kernels",
          "Verus contracts on the real BestIndividual::update, BestIndividualUpdate::execute, ElitistArchive::update and ElitistArchiveIntoPopulation::execute over an abstract total order + Kani kernels"),
         ("Kernel harnesses (population minimum, elitist archive) are bounded Kani triples.",
-         "ElitistArchive::update is proved (unbounded: any archive, population, capacity) to leave the sorted min(k, shown) best objective values of archive ++ population with no discarded value better than a kept one; BestIndividualUpdate::execute and ElitistArchiveIntoPopulation::execute are proved against those contracts (no duplicates re-inserted). Kernel harnesses (population minimum, elitist archive) are bounded Kani triples; 3-update archive histories and the whole-run clause 'reported best = minimum returned' (19 shipped templates) are bounded native runs; the latter fails for the two ILS templates, recorded as a known finding."),
+         "ElitistArchive::update is proved (unbounded: any archive, population, capacity) to leave the sorted min(k, shown) best objective values of archive ++ population with no discarded value better than a kept one; BestIndividualUpdate::execute and ElitistArchiveIntoPopulation::execute are proved against those contracts (no duplicates re-inserted). Kernel harnesses (population minimum, elitist archive) are bounded Kani triples; 3-update archive histories and the whole-run clause 'reported best = minimum returned' (19 shipped templates) are bounded native runs (the latter exposed a defect of the ILS templates, repaired)."),
         ("Individual contracts (C05). Whole-run clause uncovered.",
          "Individual contracts (C05); assumed std meaning of extend_from_slice / sort_unstable_by_key / truncate. The composition over histories is mechanised too (lemma_k_best_composes / lemma_archive_history_step: the k best of (the k best of S) ++ P are the k best of S ++ P, for any implementation satisfying the update contract), so 'holds the k best it has been shown so far' is an invariant of every history; 3-update histories are additionally run on the real code (bounded)."),
     ],
